@@ -8,7 +8,15 @@ from trie.exceptions import (PerfectVisibility, FullDirectionalVisibility, Missi
 
 ID = "C09"
 LEAN_IMPORTS = ["PyTrie.Props.C09"]
-THEOREMS = []
+THEOREMS = [
+    "PyTrie.Props.C09.step_defined",
+    "PyTrie.Props.C09.finds_stable",
+    "PyTrie.Props.C09.invariant",
+    "PyTrie.Props.C09.sound",
+    "PyTrie.Props.C09.exact",
+    "PyTrie.Props.C09.step_decreases",
+    "PyTrie.Props.C09.measure_start",
+]
 RULE = ("walks over tries built by generated histories: at every step an unexplored prefix is taken with nearest_unknown or "
         "nearest_right for a (changing) query key, traversed from the root or from a TrieFrontierCache entry (stale entries "
         "after mutations included; a MissingTraversalNode from a pruned stale parent drops the entry and retries from the root), "
@@ -23,7 +31,7 @@ BUDGET_S = {"quick": 90, "thorough": 780}
 
 
 def gen_cases(rng, tier):
-    n = 450 if tier == "quick" else 8000
+    n = 1500 if tier == "quick" else 20000
     for i in range(n):
         keys = hexlib.gen_universe(rng, rng.randint(2, 9)) if rng.random() < 0.75 else rng.sample(hexlib.CRAFTED_KEYS, 8)
         values = [bytes([rng.choice(b"xyz")]) * rng.choice([1, 20, 33, 40]) for _ in range(3)]
